@@ -772,6 +772,8 @@ func main() {
 	var scs []scenario
 	vh.LoadJSON(os.Args[2], &scs)
 	tr := vh.NewTrace(os.Args[3])
+	// every operation of a script is a non-blocking call into the stack: 40 s of silence means one of them does not return
+	tr.Watchdog(40 * time.Second)
 	for i, sc := range scs {
 		runScenario(i, sc, tr)
 	}
